@@ -309,7 +309,7 @@ func (g *c20gen) value(depth int) (interface{}, exp) {
 		m := map[string]interface{}{}
 		e := exp{kind: "map", m: map[string]exp{}}
 		for i := 0; i < n; i++ {
-			k := []string{"a", "Key", "with space", "ü", "", "k" + fmt.Sprint(i)}[g.r.Intn(6)]
+			k := []string{"a", "Key", "with space", "ü", "", "k" + fmt.Sprint(i), "key", "KEY", "A"}[g.r.Intn(9)]
 			m[k], e.m[k] = g.value(depth - 1)
 		}
 		return m, e
@@ -568,6 +568,9 @@ func valuePool(r *fw.Rand) []data.Value {
 		data.Float(math.NaN()), data.Float(math.Inf(1)), data.Float(math.Inf(-1)), data.Float(9.223372036854775807e18),
 		data.String(""), data.String("0"), data.String("false"), data.String("a"), data.String("null"), data.String(" "),
 		l1, l1, data.List{data.Int(1)}, data.List{}, data.List(nil), m1, m1, data.Map{"a": data.Int(1)}, data.Map{}, data.Map(nil),
+		// maps with many keys, keys that differ only in case, in accents, in width, empty and odd keys: printing is a function of the value
+		data.Map{"id": data.Int(1), "Id": data.Int(2), "ID": data.Int(3), "iD": data.Int(4), "a b": data.Int(5), "": data.Int(6), "\u00e4": data.Int(7), "\u00c4": data.Int(8), "k10": data.Int(9), "k9": data.Int(10)},
+		data.List{data.Map{"x": data.Null{}, "X": data.List{data.Map{"b": data.Int(1), "B": data.Int(1), "a": data.Int(1)}}}, data.Map{"1": data.Int(1), "01": data.Int(1), "\uff11": data.Int(1), "true": data.Bool(true), "True": data.Bool(true)}},
 	}
 	for i := 0; i < 40; i++ {
 		switch r.Intn(3) {
@@ -629,8 +632,11 @@ func init() {
 						return fw.Result{Verdict: fw.Violated, Key: fmt.Sprintf("truthiness:%T", a), Msg: fmt.Sprintf("%s.Truthy() = %v, the language table says %v", valDesc(a), a.Truthy(), wantTruthy(a))}
 					}
 					if _, undef := a.(data.Undefined); !undef {
-						if s1, s2 := a.String(), a.String(); s1 != s2 {
-							return fw.Result{Verdict: fw.Violated, Key: fmt.Sprintf("string-nondeterministic:%T", a), Msg: fmt.Sprintf("%q vs %q", s1, s2)}
+						s1 := a.String()
+						for rep := 0; rep < 8; rep++ {
+							if s2 := a.String(); s1 != s2 {
+								return fw.Result{Verdict: fw.Violated, Key: fmt.Sprintf("string-nondeterministic:%T", a), Msg: fmt.Sprintf("%q vs %q", s1, s2)}
+							}
 						}
 					}
 					for bi, b := range pool {
@@ -681,6 +687,14 @@ func init() {
 				_ = kind
 				return fw.Result{Verdict: fw.Violated, Key: "conversion:" + want.kind, Case: fw.Trim(desc, 600),
 					Msg: fmt.Sprintf("data.NewWith(%+v, %s) is not the same structure: %s", opts, fw.Trim(desc, 300), why)}
+			}
+			// printing the converted value is a function of the value
+			if p1 := safeString(got); true {
+				for rep := 0; rep < 4; rep++ {
+					if p2 := safeString(got); p1 != p2 {
+						return fw.Result{Verdict: fw.Violated, Key: "string-nondeterministic:converted", Case: fw.Trim(desc, 600), Msg: fmt.Sprintf("printed %q, then %q", fw.Trim(p1, 300), fw.Trim(p2, 300))}
+					}
+				}
 			}
 			// converting again changes nothing
 			again := data.NewWith(opts, got)
